@@ -163,6 +163,8 @@ static std::string op(const Toks& t) {
   }
   if (o == "p.copy") { size_t i = toU(t[1]), k = toU(t[2]); if (!ps.at(i)) return "absent"; std::unique_ptr<Parameter> p(ps[i]->clone()); ps.at(k) = std::move(p); return withState("ok", k); }
   if (o == "p.auto") { size_t i = toU(t[1]), k = toU(t[2]); if (!ps.at(i)) return "absent"; std::unique_ptr<Parameter> p(new AutoParameter(*ps[i])); ps.at(k) = std::move(p); return withState("ok", k); }
+  // the slicing copy: Parameter's copy constructor applied to whatever the register holds
+  if (o == "p.plain") { size_t i = toU(t[1]), k = toU(t[2]); if (!ps.at(i)) return "absent"; std::unique_ptr<Parameter> p(new Parameter(*ps[i])); ps.at(k) = std::move(p); return withState("ok", k); }
   if (o == "p.assign") {
     size_t i = toU(t[1]), k = toU(t[2]); if (!ps.at(i) || !ps.at(k)) return "absent";
     AutoParameter* a = dynamic_cast<AutoParameter*>(ps[k].get()); AutoParameter* s = dynamic_cast<AutoParameter*>(ps[i].get());
